@@ -3,7 +3,13 @@
 Theorems (coq/theories/Properties/C14.v): the Doubling model equals the Spec `delay_spec` for all
 min <= max and all call sequences. Correspondence: the public strategy object of /repo vs. the
 model (every case) and vs. the Spec (cases inside the theorem's domain).
+Task level: theorems C14_task* about Model/RetryTask.v; correspondence: the real
+spawn_tcp_client_task / spawn_tls_client_task on loopback against a scripted peer (refused /
+accept-then-close / served) with a recording, gating Listener: the announced delays must be the
+Spec's for that connect-outcome sequence and the next Connecting must not be announced earlier
+than the delay after the wait announcement (lower bound only, monotonic clock).
 """
+import os
 import vlib
 
 DUR_MAX = 18446744073709551615 * 10**9 + 999999999
@@ -55,12 +61,14 @@ def in_domain(c):
 
 def run(ctx):
     ctx.translate(['Defaults.v'])
-    models_ok = ctx.build_models(['Base.Show', 'Model.Retry', 'Spec.RetrySpec'])
+    models_ok = ctx.build_models(['Base.Show', 'Model.Retry', 'Spec.RetrySpec', 'Model.RetryTask'])
     ctx.prove()
     if ctx.tier == 'thorough':
         ctx.coqchk()
     if not ctx.build_harness() or not models_ok:
         return
+    if ctx.replay and 'task_cases' in ctx.replay and 'cases' not in ctx.replay:
+        return run_task_level(ctx)
     if ctx.replay and 'cases' in ctx.replay:
         cases = [tuple(c) for c in ctx.replay['cases']]
     else:
@@ -102,6 +110,154 @@ def run(ctx):
         'input_classes': classes,
         'exhaustive': False,
     })
+    run_task_level(ctx)
+
+
+# ---------------------------------------------------------------------------------------------
+# task level
+TASK_REQ = ['Base.Show', 'Model.Retry', 'Spec.RetrySpec', 'Model.RetryTask']
+TASK_T = 'variant * N * N * list tevent * list op'
+TASK_FN = ('fun c : variant * N * N * list tevent * list op => let \'(v, mn, mx, evs, ops) := c in '
+           '(match trun v (tinit mn mx) evs with None => "PANIC" | Some (_, o) => '
+           'show_list (fun x => x) "," (flat_map (fun x => match x with OAnnounce AfterFailedConnect d => ["F" ++ show_N d] | OAnnounce AfterDisconnect d => ["D" ++ show_N d] | _ => [] end) o) end) '
+           '++ "|" ++ (match trun v (tinit mn mx) evs with None => "PANIC" | Some (_, o) => show_list show_N "," (armed o) end) '
+           '++ "|" ++ show_list show_N "," (somes (spec mn mx 0 ops))')
+MS = 10**6
+
+
+def task_cases(ctx, n):
+    r = ctx.rng
+    certs = os.path.join(vlib.REPO, 'certs', 'ca_chain')
+    cases = [('tcp', 20, 70, 'rrrrcsr'), ('tcp', 20, 70, 'crcr'), (f'tls:{certs}', 20, 70, 'rcrcr'), ('tcp', 10, 10, 'rrs'), ('tcp', 20, 70, 's'),
+             ('tcp', 20, 70, 'rrrrrr'), (f'tls:{certs}', 15, 100, 'cccc'), ('tcp', 5, 40, 'rrrrsrrrr'),
+             ('rtu', 20, 70, 'rrror'), ('rtu', 20, 70, 'oro'), ('rtu', 10, 40, 'rrrrr'), ('rtu', 20, 70, 'o'),
+             ('rtuserver', 20, 70, 'rrror'), ('rtuserver', 20, 70, 'oro'), ('rtuserver', 10, 40, 'rrrrr'), ('rtuserver', 20, 70, 'o')]
+    while len(cases) < n:
+        w = r.random()
+        tls = w < 0.25
+        mn, mx = r.choice([(20, 70), (10, 10), (15, 100), (5, 40), (30, 30), (8, 64), (25, 60)])
+        ln = r.choice([2, 3, 4, 5, 6, 7, 8])
+        if w > 0.7:
+            cases.append(('rtu' if w > 0.85 else 'rtuserver', mn, mx, ''.join(r.choices('ro', weights=(5, 2), k=ln))))
+            continue
+        script = ''.join(r.choices('rc' if tls else 'rcs', weights=(5, 2) if tls else (5, 1, 2), k=ln))
+        cases.append((f'tls:{certs}' if tls else 'tcp', mn, mx, script))
+    return cases
+
+
+def task_to_coq(c):
+    variant, mn, mx, script = c
+    tls = variant.startswith('tls')
+    evs, ops = [], []
+    for ch in script:
+        if ch == 'r' or (tls and ch == 'c'):
+            evs += ['AttemptFails', 'Elapsed']      # refused, or the TLS handshake fails: a failed connect
+            ops += ['Fail']
+        else:
+            evs += ['AttemptOk', 'Lost', 'Elapsed']  # connected, then lost
+            ops += ['Reset', 'Disc']
+    model_variant = {'rtu': 'SerialClient', 'rtuserver': 'RtuServer'}.get(variant, 'TcpClient')
+    return f'({model_variant}, {mn * MS}, {mx * MS}, [{";".join(evs)}], [{";".join(ops)}])'
+
+
+def actual_case(c, i):
+    """the RTU server has no listener to hold it while the next outcome is prepared: what is judged is the
+    sequence of outcomes that actually occurred (F = the open failed, D = the port opened and was lost)"""
+    if c[0] != 'rtuserver':
+        return c
+    fields = [f for f in i.split(',') if f and f[0] in 'FD']
+    return (c[0], c[1], c[2], ''.join('r' if f[0] == 'F' else 'o' for f in fields))
+
+
+def task_eval(ctx, cases):
+    cases = list(cases)
+    impl = [None] * len(cases)
+    # the RTU server scenarios run in a process of their own (a tracing subscriber records its log)
+    for sel, shards in ((lambda c: c[0] != 'rtuserver', 4), (lambda c: c[0] == 'rtuserver', 2)):
+        ix = [k for k, c in enumerate(cases) if sel(c)]
+        if ix:
+            res = ctx.harness('retrytask', [f'{v} {mn} {mx} {sc}' for v, mn, mx, sc in (cases[k] for k in ix)], shards=shards, timeout=600)
+            for k, r in zip(ix, res):
+                impl[k] = r
+    both = ctx.coq_eval(TASK_REQ, TASK_FN, [task_to_coq(actual_case(c, i)) for c, i in zip(cases, impl)], case_type=TASK_T,
+                        preamble='Local Open Scope string_scope.', per_shard=40)
+    return impl, both
+
+
+def task_judge(i, b):
+    """None, or (key, description)"""
+    model, armed, spec = b.split('|')
+    fields = [f for f in i.split(',') if f]
+    if any(not f or f[0] not in 'FD' or f[-1] not in '+-?' for f in fields):
+        return ('task.unusable-result', f'harness result {i}')
+    values = ','.join(f[1:-1] for f in fields)
+    kinds = ','.join(f[:-1] for f in fields)
+    if values != spec:
+        return ('task.announced-delays-differ-from-spec', f'announced {kinds} but the Spec gives {spec}')
+    if values != armed or (model and kinds != model):
+        return ('task.model-differs-from-impl', f'announced {kinds} but the model gives {model or armed}')
+    if any(f[-1] == '-' for f in fields):
+        return ('task.next-attempt-earlier-than-announced', f'{i}: the next connect/open attempt was announced earlier than the announced delay after the wait announcement')
+    if any(f[-1] == '?' for f in fields):
+        return ('task.no-next-attempt', f'{i}: no Connecting followed an announced wait')
+    return None
+
+
+def task_shrink_candidates(c):
+    v, mn, mx, sc = c
+    for k in range(len(sc) - 1, -1, -1):
+        yield (v, mn, mx, sc[:k] + sc[k + 1:])
+
+
+def run_task_level(ctx):
+    if ctx.replay and 'task_cases' in ctx.replay:
+        cases = [tuple(c) for c in ctx.replay['task_cases']]
+    elif ctx.replay:
+        return
+    else:
+        cases = task_cases(ctx, 48 if ctx.quick() else 400)
+    impl, both = task_eval(ctx, cases)
+    bad = 0
+    for c, i, b in zip(cases, impl, both):
+        j = task_judge(i, b)
+        if not j:
+            continue
+        bad += 1
+        if bad > 2:
+            continue
+        key = j[0]
+
+        def fails(xs, key=key):
+            im, bo = task_eval(ctx, xs)
+            return [(task_judge(a, d) or ('', ''))[0] == key for a, d in zip(im, bo)]
+        small = vlib.shrink_batch(c, fails, task_shrink_candidates, rounds=8, width=8)
+        im, bo = task_eval(ctx, [small])
+        js = task_judge(im[0], bo[0])
+        if not js or js[0] != key:
+            small, im, bo, js = c, [i], [b], j
+        ctx.violation(key, f'{"RTU server" if small[0] == "rtuserver" else small[0].split(":")[0] + " client"} task, retry {small[1]}..{small[2]} ms, connect outcomes "{small[3]}" (r=refused/no device c=accepted+closed s=served o=port opened then lost): {js[1]}',
+                      {'task_cases': [list(small)], 'impl': im[0], 'model|spec': bo[0], 'original_case': list(c)},
+                      no_failing_input=(key == 'task.model-differs-from-impl'))
+    ctx.oblige('correspondence:task-level-delays', bad == 0, f'{bad} of {len(cases)} scenarios differ')
+    tcls = {'tcp': 0, 'tls': 0, 'rtu': 0, 'rtuserver': 0, 'rtuserver_followed_script': 0, 'with_port_opened': 0, 'with_served': 0, 'with_accept_close': 0, 'three_refused_in_a_row': 0, 'capped': 0, 'announcements': 0}
+    for c, i in zip(cases, impl):
+        tcls['tls' if c[0].startswith('tls') else c[0]] += 1
+        tcls['with_port_opened'] += 'o' in c[3]
+        tcls['rtuserver_followed_script'] += c[0] == 'rtuserver' and actual_case(c, i)[3] == c[3]
+        tcls['with_served'] += 's' in c[3]
+        tcls['with_accept_close'] += 'c' in c[3]
+        tcls['three_refused_in_a_row'] += 'rrr' in c[3]
+        tcls['capped'] += f'F{c[2] * MS}' in i
+        tcls['announcements'] += len([f for f in i.split(',') if f])
+    if not ctx.replay:
+        ctx.oblige('task-generator-reaches-expected-classes', all(tcls[k] >= 3 for k in ('tcp', 'tls', 'rtu', 'rtuserver', 'rtuserver_followed_script', 'with_port_opened', 'with_served', 'with_accept_close', 'three_refused_in_a_row', 'capped')), str(tcls))
+    ctx.coverage['task_level'] = {
+        'scenarios': len(cases),
+        'distinct_nontrivial': len(set(c for c in cases if len(c[3]) >= 2)),
+        'rule': 'scenario = (tcp|tls|rtu client task or rtuserver = RTU server task (delays read from its log, judged on the outcome sequence that actually occurred), min ms, max ms, one connect outcome per attempt: r refused / device missing, c accepted then closed (tls: failed handshake), s served one request then closed, o pty opened then its master closed); seeded PRNG after a fixed list; non-trivial = at least two attempts',
+        'input_classes': tcls,
+        'samples': [list(c[:1]) + list(c[1:]) + [i] for c, i in list(zip(cases, impl))[:4]],
+    }
 
 
 def differs_from_spec(ctx, cs):
